@@ -11,6 +11,7 @@ import shutil
 import subprocess
 import tempfile
 import time
+import uuid
 from dataclasses import dataclass, field
 from pathlib import Path
 from typing import Optional
@@ -101,7 +102,7 @@ def run_tlc(
     if not spec.exists():
         raise MachineryError(f"spec not found: {spec}")
     scratch.mkdir(parents=True, exist_ok=True)
-    tag = f"{spec.stem}-{int(time.time()*1000)%10**9}-{os.getpid()}"
+    tag = f"{spec.stem}-{uuid.uuid4().hex[:12]}"
     cfg_path = scratch / f"{tag}.cfg"
     cfg_path.write_text(cfg)
     meta = scratch / f"{tag}.meta"
